@@ -67,7 +67,11 @@ func mainEngine(o *Out, scnFile string, seed int64, count int, modes string, var
 				agree = flowRunAgrees(cfg, func() Script { return scriptForGenerated(cfg) }, evs)
 			}
 		}
-		o.WriteScenarioX(id, "engine", src, cj, exp, evs, agree)
+		fam := "engine"
+		if cfg.zeroBudget() {
+			fam = "enginezero" // no verdict: trace validation against the specification only
+		}
+		o.WriteScenarioX(id, fam, src, cj, exp, evs, agree)
 	}
 	if rp := opts["replay"]; rp != "" {
 		// re-execute recorded scenarios (same configuration, same script) on the current tree
